@@ -6,8 +6,10 @@ Everything is about `AmVerif.Model.Watch` — the definitions the driver `amdrv`
 decision tables `Gen.watchTable` / `Gen.compTable` are regenerated from
 `src/hot_reloading/watcher.rs` on every run.
 
-Full-strength statements that the current code falsifies are kept as `def …_stmt : Prop`, refuted by
-a kernel-checked witness (`F_C12…`), and accompanied by `_partial` / exact-batch theorems.
+The full-strength statements (`C12_root_stmt`, `C12_table_stmt` for every kind,
+`C12_expressible_stmt`, `C12_detour_events_stmt`) were false of the watcher before the repairs of
+F-C12a–e (they were refuted by kernel-checked witnesses then); they are **proved** here, so they
+break again — together with the oracle of the `watch` engine — if one of the defects returns.
 -/
 namespace AmVerif.Props.C12
 open AmVerif.Gen AmVerif.Model.Watch
@@ -46,27 +48,41 @@ def extOf : Option (List Char) → List Char
   | none => []
   | some x => x
 
-/-- What `id_of_path` says about the entry's path when the file system answers `is_dir = d`. -/
-def seen (init : List (List Char)) (l : List Char) (ext? : Option (List Char)) (d : Bool) : Ent :=
-  if d then .dir (joinDot (init ++ [l])) else .file (joinDot (init ++ [l])) (extOf ext?)
+/-- What `id_of_path` says about the entry's path when the kind it is given (by the notification,
+else by the file system) is `k`: the directory only if the name has no extension (a directory
+`f.txt` is not expressible), else the file. -/
+def seen (init : List (List Char)) (l : List Char) (ext? : Option (List Char)) (k : Bool) : Option Ent :=
+  if k then (if extOf ext? = [] then some (.dir (joinDot (init ++ [l]))) else none)
+  else some (.file (joinDot (init ++ [l])) (extOf ext?))
 
 theorem slash_ne_dot : ('/' : Char) ≠ '.' := by decide
 
-theorem no_slash_joinDot (segs : List (List Char)) (h : ∀ s ∈ segs, ValidSeg s) : '/' ∉ joinDot segs := by
+theorem no_slash_joinDot_of (segs : List (List Char)) (h : ∀ s ∈ segs, '/' ∉ s) : '/' ∉ joinDot segs := by
   intro m
   rcases mem_joinDot _ _ m with e | ⟨s, hs, hc⟩
   · exact slash_ne_dot e
-  · exact (h s hs).2.2 hc
+  · exact h s hs hc
+
+theorem no_slash_joinDot (segs : List (List Char)) (h : ∀ s ∈ segs, ValidSeg s) : '/' ∉ joinDot segs :=
+  no_slash_joinDot_of segs (fun s hs => (h s hs).2.2)
 
 theorem splitName_nameOf (l : List Char) (ext? : Option (List Char)) (hl : ValidSeg l)
     (hx : ∀ x, ext? = some x → ValidExt x) :
-    (splitName (nameOf l ext?)).1 = ofStr l ∧ extensionOf (nameOf l ext?) = some (extOf ext?) := by
+    (splitName (nameOf l ext?)).1 = ofStr l ∧ extOfName (nameOf l ext?) = some (extOf ext?) ∧
+      toStr? (nameOf l ext?) = some (l ++ (if extOf ext? = [] then [] else '.' :: extOf ext?)) := by
   cases ext? with
-  | none => simp [nameOf, extOf, extensionOf, splitName_plain l hl.2.1]
+  | none => simp [nameOf, extOf, extOfName, splitName_plain l hl.2.1, toStr?_ofStr]
   | some x =>
     by_cases hx0 : x = []
-    · subst hx0; simp [nameOf, extOf, extensionOf, splitName_plain l hl.2.1]
-    · simp [nameOf, extOf, extensionOf, hx0, splitName_ext l x hl.1 (hx x rfl).1, toStr?_ofStr]
+    · subst hx0; simp [nameOf, extOf, extOfName, splitName_plain l hl.2.1, toStr?_ofStr]
+    · have hox : ofStr x ≠ [] := fun e => hx0 ((ofStr_eq_nil x).mp e)
+      have hsp := splitName_ext l x hl.1 (hx x rfl).1
+      have hwhole : ofStr l ++ OsCh.ch '.' :: ofStr x = ofStr (l ++ '.' :: x) := by simp [ofStr]
+      refine ⟨?_, ?_, ?_⟩
+      · simp [nameOf, hx0, hsp]
+      · simp [nameOf, extOf, extOfName, hx0, hsp, hox, toStr?_ofStr]
+      · simp only [nameOf, extOf, hx0, if_false]
+        rw [hwhole, toStr?_ofStr]
 
 /-- `path_of_entry` of a valid non-root entry, computed. -/
 theorem pathOf_mk (r : Path) (init l ext?) (h : ValidNonRoot init l ext?) :
@@ -86,102 +102,77 @@ theorem pathOf_mk (r : Path) (init l ext?) (h : ValidNonRoot init l ext?) :
     rw [split_join _ (by simp) hdot, foldl_pushSeg _ _ hne]
     simp [entPath, nameOf, N, setExtension, splitName_plain l hl.2.1]
 
-/-- `id_of_path` on the path of a valid non-root entry, whatever the file system says it is. -/
-theorem idOfPath_entry (r : Path) (init l ext?) (h : ValidNonRoot init l ext?) (d : Bool) :
-    idOfPath r (entPath r init l ext?) d = some (seen init l ext? d) := by
+theorem push_segs (init : List (List Char)) (l : List Char) (h : ∀ s ∈ init ++ [l], s ≠ []) (hl : '.' ∉ l) :
+    push (pushAll [] init) l = some (joinDot (init ++ [l])) := by
+  rw [← pushAll_nil _ h, pushAll_concat]
+  simp [push, hl]
+
+/-- `id_of_path` on the path of a valid non-root entry, whatever kind it is told. -/
+theorem idOfPath_entry (r : Path) (init l ext?) (h : ValidNonRoot init l ext?) (hint : Option Bool) (d : Bool) :
+    idOfPath r (entPath r init l ext?) hint d = seen init l ext? (hint.getD d) := by
   have hl : ValidSeg l := h.1 l (by simp)
   have hinit : ∀ s ∈ init, '.' ∉ s := fun s hs => (h.1 s (by simp [hs])).2.1
   have hne : ∀ w ∈ init ++ [l], w ≠ [] := fun w hw => (h.1 w hw).1
-  obtain ⟨hstem, hext⟩ := splitName_nameOf l ext? hl h.2
+  obtain ⟨hstem, hext, hwhole⟩ := splitName_nameOf l ext? hl h.2
   unfold entPath
-  rw [idOfPath_under, runComps_segs _ _ hinit, hstem, toStr?_ofStr, hext]
-  have hpush : push (pushAll [] init) l = some (joinDot (init ++ [l])) := by
-    rw [← pushAll_nil _ hne, pushAll_concat]
-    simp [push, hl.2.1]
-  simp [hpush, seen]
-  cases d <;> rfl
+  rw [idOfPath_under, runComps_segs _ _ hinit, hstem, toStr?_ofStr, hext, hwhole]
+  have hpush := push_segs init l hne hl.2.1
+  cases hk : hint.getD d with
+  | false => simp [seen, hpush]
+  | true =>
+    by_cases hx : extOf ext? = []
+    · simp [seen, hx, hpush]
+    · simp [seen, hx, push]
+
+theorem seen_kind (init l ext?) (hx : ∀ x, ext? = some x → x ≠ [] ∨ True) :
+    seen init l ext? ext?.isNone = some (mkEnt init l ext?) := by
+  cases ext? <;> simp [seen, mkEnt, extOf]
 
 /-! ## Round trip and injectivity -/
 
-/-- **C12_roundtrip.** Under every root, `id_of_path` inverts `path_of` on every valid entry other
-than the root directory itself (any depth, with or without extension). -/
-theorem C12_roundtrip (r : Path) (e : Ent) (h : ValidEnt e) (hne : e ≠ .dir []) :
-    ∃ p, pathOf r e = some p ∧ idOfPath r p e.isDir = some e := by
+theorem pathOf_root (r : Path) : pathOf r (.dir []) = some r := by
+  simp [pathOf, splitDot, pushSeg]
+
+/-- **C12_roundtrip.** Under every root, `id_of_path` inverts `path_of` on every valid entry —
+the root directory itself, and every file / directory at any depth, with or without extension —
+when the kind it is told (by the notification, else by the file system) is the entry's. -/
+theorem C12_roundtrip (r : Path) (e : Ent) (h : ValidEnt e) (hint : Option Bool) (d : Bool)
+    (hk : hint.getD d = e.isDir) :
+    ∃ p, pathOf r e = some p ∧ idOfPath r p hint d = some e := by
   cases h with
-  | root => exact absurd rfl hne
+  | root => exact ⟨r, pathOf_root r, idOfPath_root r hint d⟩
   | nonroot init l ext? hv =>
     refine ⟨_, pathOf_mk r init l ext? hv, ?_⟩
-    rw [idOfPath_entry r init l ext? hv]
+    rw [idOfPath_entry r init l ext? hv, hk]
     cases ext? <;> simp [mkEnt, seen, Ent.isDir, extOf]
 
 example : ValidEnt (mkEnt [['d']] ['f'] (some ['t', 'x', 't'])) :=
   .nonroot _ _ _ ⟨by simp [ValidSeg], by simp [ValidExt]⟩
 
-theorem pathOf_root (r : Path) : pathOf r (.dir []) = some r := by
-  simp [pathOf, splitDot, pushSeg]
-
 /-- **C12_injective.** Two valid files, or two valid directories, with the same path under one root
 are the same entry. (A file without extension and a directory *can* share a path.) -/
 theorem C12_injective (r p : Path) (e₁ e₂ : Ent) (h₁ : ValidEnt e₁) (h₂ : ValidEnt e₂)
     (hk : e₁.isDir = e₂.isDir) (hp₁ : pathOf r e₁ = some p) (hp₂ : pathOf r e₂ = some p) : e₁ = e₂ := by
-  have len_ne : ∀ init l ext?, ValidNonRoot init l ext? → pathOf r (mkEnt init l ext?) = some p →
-      pathOf r (.dir []) = some p → False := by
-    intro init l ext? hv ha hb
-    rw [pathOf_mk r init l ext? hv] at ha
-    rw [pathOf_root] at hb
-    have := congrArg List.length (Option.some.inj (ha.trans hb.symm))
-    simp [entPath] at this
-  cases h₁ with
-  | root =>
-    cases h₂ with
-    | root => rfl
-    | nonroot init l ext? hv => exact absurd hp₁ (fun h => len_ne init l ext? hv hp₂ h)
-  | nonroot init l ext? hv =>
-    cases h₂ with
-    | root => exact absurd hp₂ (fun h => len_ne init l ext? hv hp₁ h)
-    | nonroot init' l' ext?' hv' =>
-      rw [pathOf_mk r init l ext? hv] at hp₁
-      rw [pathOf_mk r init' l' ext?' hv'] at hp₂
-      have e1 := idOfPath_entry r init l ext? hv (mkEnt init l ext?).isDir
-      have e2 := idOfPath_entry r init' l' ext?' hv' (mkEnt init l ext?).isDir
-      rw [Option.some.inj hp₁] at e1
-      rw [Option.some.inj hp₂] at e2
-      have hs := Option.some.inj (e1.symm.trans e2)
-      cases ext? <;> cases ext?' <;> simp_all [mkEnt, seen, Ent.isDir, extOf]
+  obtain ⟨p1, hq1, hi1⟩ := C12_roundtrip r e₁ h₁ none e₁.isDir rfl
+  obtain ⟨p2, hq2, hi2⟩ := C12_roundtrip r e₂ h₂ none e₁.isDir (by simpa using hk)
+  rw [hp₁] at hq1; rw [hp₂] at hq2
+  cases hq1; cases hq2
+  exact Option.some.inj (hi1.symm.trans hi2)
 
 /-! ## The root directory (F-C12a) -/
 
-/-- No path is reported for the root itself: `id_of_path(root, root)` is `None` for every root. -/
-theorem C12_root_never (r : Path) (d : Bool) : idOfPath r r d = none := by
-  unfold idOfPath
-  cases h : parentOf r with
-  | none => rfl
-  | some q =>
-    cases h2 : stripPrefix r q with
-    | none => simp [h2]
-    | some x =>
-      exfalso
-      obtain ⟨c, hc⟩ := parentOf_eq_some h
-      have h3 := congrArg List.length (stripPrefix_eq_some h2)
-      have h4 := congrArg List.length hc
-      simp at h3 h4
-      omega
+/-- Full strength: the root directory is the directory with the empty id (whatever the
+notification and the file system say about its kind). -/
+def C12_root_stmt : Prop := ∀ (r : Path) (hint : Option Bool) (d : Bool), idOfPath r r hint d = some (.dir [])
 
-/-- Full strength: the root directory is the directory with the empty id. -/
-def C12_root_stmt : Prop := ∀ r : Path, idOfPath r r true = some (.dir [])
-
-/-- F-C12a at model level: false for *every* root. -/
-theorem F_C12a_root_witness : ¬ C12_root_stmt := by
-  intro h
-  have := h [.rootDir, N ['r']]
-  rw [C12_root_never] at this
-  cases this
+/-- **C12_root** (F-C12a repaired). -/
+theorem C12_root : C12_root_stmt := idOfPath_root
 
 /-! ## Detours, foreign paths, inexpressible names -/
 
-theorem idOfPath_nonnormal (r q : Path) (c : Comp) (d : Bool) (hc : ∀ n, c ≠ .normal n) :
-    idOfPath r (q ++ [c]) d = none := by
-  unfold idOfPath
+theorem idOfPath_nonnormal (r q : Path) (c : Comp) (hint : Option Bool) (d : Bool) (hc : ∀ n, c ≠ .normal n)
+    (hne : q ++ [c] ≠ r) : idOfPath r (q ++ [c]) hint d = none := by
+  rw [idOfPath_of_ne _ _ _ _ hne]
   have : fileName (q ++ [c]) = none := by
     cases c <;> simp_all [fileName]
   cases parentOf (q ++ [c]) with
@@ -189,29 +180,29 @@ theorem idOfPath_nonnormal (r q : Path) (c : Comp) (d : Bool) (hc : ∀ n, c ≠
   | some p =>
     cases h2 : stripPrefix r p with
     | none => simp [h2]
-    | some rel => cases runComps [] rel <;> simp [this]
+    | some rel => cases h3 : runComps [] rel <;> simp [h2, h3, this]
 
-theorem idOfPath_congr_rel (r rel rel' : Path) (c : Comp) (d : Bool)
+theorem idOfPath_congr_rel (r rel rel' : Path) (c : Comp) (hint : Option Bool) (d : Bool)
     (h : runComps [] rel = runComps [] rel') :
-    idOfPath r (r ++ rel ++ [c]) d = idOfPath r (r ++ rel' ++ [c]) d := by
+    idOfPath r (r ++ rel ++ [c]) hint d = idOfPath r (r ++ rel' ++ [c]) hint d := by
   by_cases hc : ∃ n, c = .normal n
   · obtain ⟨n, rfl⟩ := hc
     rw [idOfPath_under, idOfPath_under, h]
   · have hc' : ∀ n, c ≠ .normal n := fun n e => hc ⟨n, e⟩
-    rw [idOfPath_nonnormal _ _ _ _ hc', idOfPath_nonnormal _ _ _ _ hc']
+    rw [idOfPath_nonnormal _ _ _ _ _ hc' (under_ne _ _ _), idOfPath_nonnormal _ _ _ _ _ hc' (under_ne _ _ _)]
 
 /-- **C12_dot_components (`.`).** A `.` component anywhere below the root and before the last
 component does not change the result. -/
-theorem C12_dot_components_cur (r a b : Path) (c : Comp) (d : Bool) :
-    idOfPath r (r ++ (a ++ [.curDir] ++ b) ++ [c]) d = idOfPath r (r ++ (a ++ b) ++ [c]) d := by
+theorem C12_dot_components_cur (r a b : Path) (c : Comp) (hint : Option Bool) (d : Bool) :
+    idOfPath r (r ++ (a ++ [.curDir] ++ b) ++ [c]) hint d = idOfPath r (r ++ (a ++ b) ++ [c]) hint d := by
   apply idOfPath_congr_rel
   simp [runComps_append, runComps, compStep_cur]
 
 /-- **C12_dot_components (`x/..`).** A detour through any directory name the builder accepts,
 anywhere below the root and before the last component, does not change the result. -/
-theorem C12_dot_components_updown (r a b : Path) (x : List Char) (c : Comp) (d : Bool)
+theorem C12_dot_components_updown (r a b : Path) (x : List Char) (c : Comp) (hint : Option Bool) (d : Bool)
     (hx : '.' ∉ x) (hne : x ≠ []) :
-    idOfPath r (r ++ (a ++ [N x, .parentDir] ++ b) ++ [c]) d = idOfPath r (r ++ (a ++ b) ++ [c]) d := by
+    idOfPath r (r ++ (a ++ [N x, .parentDir] ++ b) ++ [c]) hint d = idOfPath r (r ++ (a ++ b) ++ [c]) hint d := by
   apply idOfPath_congr_rel
   have key : ∀ b1 : Buf, runComps b1 [N x, .parentDir] = some b1 := by
     intro b1
@@ -224,13 +215,14 @@ theorem C12_dot_components_updown (r a b : Path) (x : List Char) (c : Comp) (d :
     simp only [Option.bind_some]
     rw [runComps_append, key]; rfl
 
-example : idOfPath [.rootDir, N ['r']] ([.rootDir, N ['r']] ++ ([N ['a']] ++ [N ['z'], .parentDir] ++ [N ['b']]) ++ [N ['f']]) false
-    = idOfPath [.rootDir, N ['r']] ([.rootDir, N ['r']] ++ ([N ['a']] ++ [N ['b']]) ++ [N ['f']]) false :=
-  C12_dot_components_updown _ _ _ _ _ _ (by decide) (by decide)
+example : idOfPath [.rootDir, N ['r']] ([.rootDir, N ['r']] ++ ([N ['a']] ++ [N ['z'], .parentDir] ++ [N ['b']]) ++ [N ['f']]) none false
+    = idOfPath [.rootDir, N ['r']] ([.rootDir, N ['r']] ++ ([N ['a']] ++ [N ['b']]) ++ [N ['f']]) none false :=
+  C12_dot_components_updown _ _ _ _ _ _ _ (by decide) (by decide)
 
 /-- **C12_outside_none (foreign path).** A path that does not lie under the root yields nothing. -/
-theorem C12_outside_none (r p : Path) (d : Bool) (h : ¬ r <+: p) : idOfPath r p d = none := by
-  unfold idOfPath
+theorem C12_outside_none (r p : Path) (hint : Option Bool) (d : Bool) (h : ¬ r <+: p) : idOfPath r p hint d = none := by
+  have hne : p ≠ r := fun e => h (e ▸ List.prefix_refl _)
+  rw [idOfPath_of_ne _ _ _ _ hne]
   cases h1 : parentOf p with
   | none => rfl
   | some q =>
@@ -264,30 +256,60 @@ theorem compStep_bad (c : Comp) (h : BadComp c) (b : Buf) : compStep b c = none 
 
 /-- **C12_outside_none (inexpressible directory).** A non-UTF-8 or dotted component between the
 root and the last component yields nothing, whatever follows it. -/
-theorem C12_bad_component_none (r rel : Path) (c last : Comp) (d : Bool) (hc : c ∈ rel) (hbad : BadComp c) :
-    idOfPath r (r ++ rel ++ [last]) d = none := by
+theorem C12_bad_component_none (r rel : Path) (c last : Comp) (hint : Option Bool) (d : Bool) (hc : c ∈ rel)
+    (hbad : BadComp c) : idOfPath r (r ++ rel ++ [last]) hint d = none := by
   by_cases hl : ∃ n, last = .normal n
   · obtain ⟨n, rfl⟩ := hl
     rw [idOfPath_under, runComps_none_of_mem [] rel c hc (compStep_bad c hbad)]
     rfl
-  · exact idOfPath_nonnormal _ _ _ _ (fun n e => hl ⟨n, e⟩)
+  · exact idOfPath_nonnormal _ _ _ _ _ (fun n e => hl ⟨n, e⟩) (under_ne _ _ _)
 
-/-- **C12_outside_none (inexpressible name).** A last component whose stem is not UTF-8 or still
-contains a dot (`a.b.c`, `.hidden`) yields nothing. -/
-theorem C12_bad_last_none (r q : Path) (n : OsName) (d : Bool)
-    (h : ∀ s, toStr? (splitName n).1 = some s → '.' ∈ s) : idOfPath r (q ++ [.normal n]) d = none := by
-  unfold idOfPath
-  rw [parentOf_concat_normal, fileName_concat_normal]
-  simp only [Option.bind_some]
+/-- **C12_outside_none (inexpressible directory name).** Told that the entry is a directory,
+`id_of_path` yields nothing for a last component that is not UTF-8 or contains a dot (`a.b`,
+`.hidden`, `a.`): the whole name of a directory is its last id segment (F-C12d repaired). -/
+theorem C12_bad_last_dir_none (r q : Path) (n : OsName) (hint : Option Bool) (d : Bool)
+    (hne : q ++ [.normal n] ≠ r) (hk : hint.getD d = true)
+    (h : ∀ s, toStr? n = some s → '.' ∈ s) : idOfPath r (q ++ [.normal n]) hint d = none := by
+  rw [idOfPath_of_ne _ _ _ _ hne, parentOf_concat_normal, fileName_concat_normal]
+  simp only [Option.bind_some, hk, if_true]
   cases h2 : stripPrefix r q with
   | none => rfl
   | some rel =>
+    simp only [Option.bind_some]
     cases h3 : runComps [] rel with
-    | none => simp [h3]
+    | none => rfl
     | some buf =>
-      cases hs : toStr? (splitName n).1 with
-      | none => simp
+      simp only [Option.bind_some]
+      cases hs : toStr? n with
+      | none => rfl
       | some s => simp [push, h s hs]
+
+/-- **C12_outside_none (inexpressible file name).** Told that the entry is not a directory,
+`id_of_path` yields nothing for a last component whose stem is not UTF-8 or still contains a dot
+(`a.b.c`, `.hidden`), or whose extension is empty (`a.`, F-C12d repaired). -/
+theorem C12_bad_last_file_none (r q : Path) (n : OsName) (hint : Option Bool) (d : Bool)
+    (hne : q ++ [.normal n] ≠ r) (hk : hint.getD d = false)
+    (h : (∀ s, toStr? (splitName n).1 = some s → '.' ∈ s) ∨ (splitName n).2 = some []) :
+    idOfPath r (q ++ [.normal n]) hint d = none := by
+  rw [idOfPath_of_ne _ _ _ _ hne, parentOf_concat_normal, fileName_concat_normal]
+  simp only [Option.bind_some, hk]
+  cases h2 : stripPrefix r q with
+  | none => rfl
+  | some rel =>
+    simp only [Option.bind_some]
+    cases h3 : runComps [] rel with
+    | none => rfl
+    | some buf =>
+      simp only [Option.bind_some]
+      cases hs : toStr? (splitName n).1 with
+      | none => rfl
+      | some s =>
+        simp only [Option.bind_some]
+        rcases h with h | h
+        · simp [push, h s hs]
+        · cases hp : push buf s with
+          | none => rfl
+          | some id => simp [extOfName, h]
 
 example : BadComp (.normal [.ch 'a', .bad 255]) := by simp [BadComp, toStr?]
 example : BadComp (.normal (ofStr ['a', '.', 'b'])) := by
@@ -303,9 +325,12 @@ theorem C12_handler_survives (h : Handler) (isDir : Path → Bool) (k : EvKind) 
   | nil => rfl
   | cons p ps ih =>
     simp only [handleEvent]
-    cases eventPaths k p with
-    | none => rfl
-    | some es => cases es <;> simp [ih]
+    cases watchTable k with
+    | ret => rfl
+    | act wp hint =>
+      by_cases hr : h.roots = []
+      · simp [hr, ih]
+      · simp [hr, ih]
 
 /-- The watcher is dropped only by a failed send (disconnected channel). -/
 theorem C12_watcher_dropped_only_disconnected (h : Handler) (c : Bool) (isDir : Path → Bool) (k : EvKind)
@@ -317,29 +342,38 @@ theorem C12_watcher_dropped_only_disconnected (h : Handler) (c : Bool) (isDir : 
 
 /-! ## Several roots -/
 
-/-- **C12_multi_roots.** What a batch contains: exactly the translations of the expanded paths
-under each root. -/
-theorem C12_multi_roots (roots : List Path) (isDir : Path → Bool) (ps : List Path) (e : Ent) :
-    e ∈ batchOf roots isDir ps ↔ ∃ p ∈ ps, ∃ r ∈ roots, idOfPath r p (isDir p) = some e := by
-  simp [batchOf, List.mem_flatMap, List.mem_filterMap]
+/-- **C12_multi_roots.** What a batch contains: exactly, under each root, the entry the notified
+path translates to and — when the notification changes the parent's listing — the directory of
+its parent id. -/
+theorem C12_multi_roots (roots : List Path) (wp : Bool) (hint : Option Bool) (d : Bool) (p : Path) (e : Ent) :
+    e ∈ batchOf roots wp hint d p ↔
+      ∃ r ∈ roots, ∃ e₀, idOfPath r p hint d = some e₀ ∧ e ∈ withParentOf wp e₀ := by
+  simp only [batchOf, List.mem_flatMap]
+  constructor
+  · rintro ⟨r, hr, he⟩
+    cases h : idOfPath r p hint d with
+    | none => simp [h] at he
+    | some e₀ => exact ⟨r, hr, e₀, h, by simpa [h] using he⟩
+  · rintro ⟨r, hr, e₀, h, he⟩
+    exact ⟨r, hr, by simpa [h] using he⟩
 
 /-- Adding roots never loses an event. -/
-theorem C12_more_roots_more_events (r : Path) (roots : List Path) (hr : r ∈ roots) (isDir : Path → Bool)
-    (ps : List Path) (e : Ent) (h : e ∈ batchOf [r] isDir ps) : e ∈ batchOf roots isDir ps := by
+theorem C12_more_roots_more_events (r : Path) (roots : List Path) (hr : r ∈ roots) (wp : Bool) (hint : Option Bool)
+    (d : Bool) (p : Path) (e : Ent) (h : e ∈ batchOf [r] wp hint d p) : e ∈ batchOf roots wp hint d p := by
   rw [C12_multi_roots] at h ⊢
-  obtain ⟨p, hp, r', hr', he⟩ := h
+  obtain ⟨r', hr', rest⟩ := h
   simp at hr'; subst hr'
-  exact ⟨p, hp, r', hr, he⟩
+  exact ⟨r', hr, rest⟩
 
 /-- A root under which the path does not lie contributes nothing. -/
-theorem C12_foreign_root_silent (r : Path) (isDir : Path → Bool) (ps : List Path)
-    (h : ∀ p ∈ ps, ¬ r <+: p) : batchOf [r] isDir ps = [] := by
+theorem C12_foreign_root_silent (r : Path) (wp : Bool) (hint : Option Bool) (d : Bool) (p : Path)
+    (h : ¬ r <+: p) : batchOf [r] wp hint d p = [] := by
   apply List.eq_nil_iff_forall_not_mem.mpr
   intro e he
   rw [C12_multi_roots] at he
-  obtain ⟨p, hp, r', hr', hsome⟩ := he
+  obtain ⟨r', hr', e₀, hsome, _⟩ := he
   simp at hr'; subst hr'
-  rw [C12_outside_none _ _ _ (h p hp)] at hsome
+  rw [C12_outside_none _ _ _ _ h] at hsome
   cases hsome
 
 /-! ## The event-kind table -/
@@ -348,233 +382,320 @@ theorem C12_foreign_root_silent (r : Path) (isDir : Path → Bool) (ps : List Pa
 inductive NKind | create | modify | rename | delete
   deriving DecidableEq, Repr
 
-def NKind.ev : NKind → EvKind
-  | .create => .create | .modify => .modifyOther | .rename => .modifyName | .delete => .remove
+/-- The `notify` kind of a notification about an entry of the given kind: a deletion tells what
+was deleted (`RemoveKind::Folder` / `RemoveKind::File`, as the inotify and FSEvents back ends
+do) — the file system cannot be asked any more. -/
+def NKind.ev : NKind → (entryIsDir : Bool) → EvKind
+  | .create, _ => .create | .modify, _ => .modifyOther | .rename, _ => .modifyName
+  | .delete, true => .removeFolder | .delete, false => .removeFile
 
 /-- Creations, renames and deletions change the parent's listing. -/
 def NKind.namesParent : NKind → Bool
   | .modify => false | _ => true
 
-/-- The parent directory as the file system shows it when `is_dir = d`. -/
-def parentSeen (init : List (List Char)) (d : Bool) : List Ent :=
-  if init = [] then [] else [if d then .dir (joinDot init) else .file (joinDot init) []]
+theorem parentId_segs (init : List (List Char)) (l : List Char) (h : ∀ s ∈ init ++ [l], ValidSeg s) :
+    parentId (joinDot (init ++ [l])) = some (joinDot init) := by
+  have hl := h l (by simp)
+  cases init with
+  | nil =>
+    have : l ≠ [] := hl.1
+    simp [parentId, joinDot, this, splitLast_none _ _ hl.2.1]
+  | cons i is =>
+    have hmerge : joinDot ((i :: is) ++ [l]) = joinDot (i :: is) ++ '.' :: l := by
+      have h1 := pushAll_nil ((i :: is) ++ [l]) (fun s hs => (h s hs).1)
+      have h2 := pushAll_nil (i :: is) (fun s hs => (h s (by simp at hs ⊢; rcases hs with hs | hs <;> simp [hs])).1)
+      rw [← h1, pushAll_concat, h2]
+      have : joinDot (i :: is) ≠ [] := by
+        have hi := (h i (by simp)).1
+        cases is with
+        | nil => simpa [joinDot] using hi
+        | cons j js => simp [joinDot]
+      simp [this]
+    rw [hmerge]
+    simp [parentId, splitLast_append _ _ _ hl.2.1]
 
-theorem idOfPath_parent (r : Path) (init : List (List Char)) (h : ∀ s ∈ init, ValidSeg s) (d : Bool) :
-    (idOfPath r (r ++ init.map N) d).toList = parentSeen init d := by
-  rcases List.eq_nil_or_concat init with rfl | ⟨i', l', hil⟩
-  · simp [parentSeen, C12_root_never]
-  · rw [List.concat_eq_append] at hil; subst hil
-    have hv : ValidNonRoot i' l' none := ⟨h, by simp⟩
-    have := idOfPath_entry r i' l' none hv d
-    simp only [entPath, nameOf] at this
-    have e : r ++ (i' ++ [l']).map N = r ++ i'.map N ++ [.normal (ofStr l')] := by simp [N]
-    rw [e, this]
-    simp [parentSeen, seen, extOf]
-
-/-- The single message sent for one notified path (connected channel). -/
-theorem handleEvent_single (h : Handler) (isDir : Path → Bool) (k : EvKind) (p : Path) :
-    (handleEvent h true isDir k [p]).2 =
-      match eventPaths k p with
-      | none => []
-      | some [] => []
-      | some (e :: es) => [batchOf h.roots isDir (e :: es)] := by
+/-- The single message sent for one notified path (connected channel, at least one root). -/
+theorem handleEvent_single (r : Path) (w : Bool) (isDir : Path → Bool) (k : EvKind) (p : Path) :
+    (handleEvent ⟨[r], w⟩ true isDir k [p]).2 =
+      match watchTable k with
+      | .ret => []
+      | .act wp hint => [batchOf [r] wp hint (isDir p) p] := by
   simp only [handleEvent]
-  cases eventPaths k p with
-  | none => rfl
-  | some es => cases es <;> rfl
+  cases watchTable k with
+  | ret => rfl
+  | act wp hint => simp [handleEvent]
 
-theorem batchOf_single (r : Path) (isDir : Path → Bool) (ps : List Path) :
-    batchOf [r] isDir ps = ps.flatMap fun p => (idOfPath r p (isDir p)).toList := by
-  unfold batchOf
-  congr 1
+theorem batchOf_single (r : Path) (wp : Bool) (hint : Option Bool) (d : Bool) (p : Path) :
+    batchOf [r] wp hint d p = match idOfPath r p hint d with
+      | none => []
+      | some e => withParentOf wp e := by
+  simp only [batchOf, List.flatMap_cons, List.flatMap_nil, List.append_nil]
+  cases idOfPath r p hint d <;> rfl
 
-/-- **Exact batch** for a notification of each `notify` kind about a valid non-root entry under a
-single root, as a function of what the file system says when the event is handled. Access / Other:
-nothing. Any / Modify(_) (renames included): the entry only. Create: the entry and — unless the
-entry is a child of the root — its parent. Remove: the parent only, nothing at all for a child of
-the root. -/
+/-- The message for an entry that `id_of_path` names `e`: the entry and, if asked for, its parent. -/
+def msgOf (wp : Bool) (init : List (List Char)) : Option Ent → List Ent
+  | none => []
+  | some e => e :: (if wp then [.dir (joinDot init)] else [])
+
+/-- **Exact batch** for a notification of each `notify` kind about the path of a valid non-root
+entry under a single root, as a function of what the file system says when the event is handled.
+Access / Other: nothing. Any / Modify(_) other than a rename: the entry only, with the kind the
+file system shows. Create / rename: the entry and its parent directory (`""` for a child of the
+root). Remove(File) / Remove(Folder): the entry with the kind the notification gives, and its
+parent. Any other Remove: the entry as the file system shows it (a file: it is gone), and its
+parent. -/
 theorem C12_batch_exact (r : Path) (init l ext?) (hv : ValidNonRoot init l ext?) (isDir : Path → Bool)
     (w : Bool) (k : EvKind) :
     (handleEvent ⟨[r], w⟩ true isDir k [entPath r init l ext?]).2 =
       match k with
       | .access | .other => []
-      | .any | .modifyName | .modifyOther => [[seen init l ext? (isDir (entPath r init l ext?))]]
-      | .create => [seen init l ext? (isDir (entPath r init l ext?)) :: parentSeen init (isDir (r ++ init.map N))]
-      | .remove => [parentSeen init (isDir (r ++ init.map N))] := by
-  have hinit : ∀ s ∈ init, ValidSeg s := fun s hs => hv.1 s (by simp [hs])
-  have hP := idOfPath_entry r init l ext? hv (isDir (entPath r init l ext?))
-  have hQ := idOfPath_parent r init hinit (isDir (r ++ init.map N))
-  have hpar : parentOf (entPath r init l ext?) = some (r ++ init.map N) := parentOf_concat_normal _ _
+      | .any | .modifyOther => [msgOf false init (seen init l ext? (isDir (entPath r init l ext?)))]
+      | .create | .modifyName | .removeOther => [msgOf true init (seen init l ext? (isDir (entPath r init l ext?)))]
+      | .removeFile => [msgOf true init (seen init l ext? false)]
+      | .removeFolder => [msgOf true init (seen init l ext? true)] := by
+  have hpar := parentId_segs init l hv.1
+  have key : ∀ (wp : Bool) (hint : Option Bool),
+      batchOf [r] wp hint (isDir (entPath r init l ext?)) (entPath r init l ext?) =
+        msgOf wp init (seen init l ext? (hint.getD (isDir (entPath r init l ext?)))) := by
+    intro wp hint
+    rw [batchOf_single, idOfPath_entry r init l ext? hv]
+    cases hs : seen init l ext? (hint.getD (isDir (entPath r init l ext?))) with
+    | none => rfl
+    | some e =>
+      have hid : e.id = joinDot (init ++ [l]) := by
+        unfold seen at hs
+        split at hs
+        · split at hs
+          · cases hs; rfl
+          · cases hs
+        · cases hs; rfl
+      cases wp <;> simp [msgOf, withParentOf, hid, hpar]
   rw [handleEvent_single]
-  cases k <;>
-    simp [eventPaths, watchTable, hpar, sel, batchOf_single, hP, hQ]
+  cases k <;> simp [watchTable, key]
 
-/-- What the statement demands: one message, naming the entry (with its kind) and, for creations,
-renames and deletions, its parent directory (`dir ""` for children of the root). The file system
-shows the parent as a directory and the entry with its kind — or gone, after a deletion. -/
+/-- What the statement demands: one message, naming exactly the entry (with its kind) and, for
+creations, renames and deletions, its parent directory (`dir ""` for children of the root). The
+file system shows the entry with its kind — or gone, after a deletion, in which case the
+notification tells what it was. -/
 def C12_table_stmt (nk : NKind) : Prop :=
   ∀ (r : Path) (init : List (List Char)) (l : List Char) (ext? : Option (List Char))
     (isDir : Path → Bool) (w : Bool),
     ValidNonRoot init l ext? →
-    isDir (r ++ init.map N) = true →
     isDir (entPath r init l ext?) = (if nk = .delete then false else ext?.isNone) →
-    ∃ batch, (handleEvent ⟨[r], w⟩ true isDir nk.ev [entPath r init l ext?]).2 = [batch] ∧
-      mkEnt init l ext? ∈ batch ∧ (nk.namesParent = true → Ent.dir (joinDot init) ∈ batch)
+    (handleEvent ⟨[r], w⟩ true isDir (nk.ev ext?.isNone) [entPath r init l ext?]).2 =
+      [mkEnt init l ext? :: (if nk.namesParent then [Ent.dir (joinDot init)] else [])]
 
-theorem seen_kind (init l ext?) : seen init l ext? ext?.isNone = mkEnt init l ext? := by
+theorem seen_isNone (init l ext?) : seen init l ext? ext?.isNone = some (mkEnt init l ext?) := by
   cases ext? <;> simp [seen, mkEnt, extOf]
 
-/-- **C12_table, modifications: full strength, any depth.** -/
-theorem C12_table_modify : C12_table_stmt .modify := by
-  intro r init l ext? isDir w hv _ hP
-  refine ⟨[mkEnt init l ext?], ?_, by simp, by simp [NKind.namesParent]⟩
-  rw [NKind.ev, C12_batch_exact r init l ext? hv]
-  simp at hP
-  simp [hP, seen_kind]
-
-/-- Executable side condition of the partial theorem: the depths / kinds at which the current
-table meets the statement (`depth` = number of segments of the id; 1 = child of the root). -/
-def tableH (nk : NKind) (depth : Nat) : Bool :=
-  match nk with
-  | .modify => true
-  | .create => decide (depth ≥ 2)
-  | .rename => false
-  | .delete => false
-
-/-- **C12_table_partial.** Modifications at any depth; creations from depth 2 on. -/
-theorem C12_table_partial (nk : NKind) (r : Path) (init l ext?) (isDir : Path → Bool) (w : Bool)
-    (hH : tableH nk (init.length + 1) = true)
-    (hv : ValidNonRoot init l ext?) (hQ : isDir (r ++ init.map N) = true)
-    (hP : isDir (entPath r init l ext?) = (if nk = .delete then false else ext?.isNone)) :
-    ∃ batch, (handleEvent ⟨[r], w⟩ true isDir nk.ev [entPath r init l ext?]).2 = [batch] ∧
-      mkEnt init l ext? ∈ batch ∧ (nk.namesParent = true → Ent.dir (joinDot init) ∈ batch) := by
+/-- **C12_table: full strength, every kind, every depth** (F-C12a: the parent of a child of the
+root is the root; F-C12b: a deletion names the entry, with the kind the notification gives;
+F-C12c: a rename names the parent). -/
+theorem C12_table (nk : NKind) : C12_table_stmt nk := by
+  intro r init l ext? isDir w hv hP
+  rw [C12_batch_exact r init l ext? hv]
   cases nk with
-  | modify => exact C12_table_modify r init l ext? isDir w hv hQ hP
-  | rename => simp [tableH] at hH
-  | delete => simp [tableH] at hH
-  | create =>
-    have hne : init ≠ [] := by
-      intro e; subst e; simp [tableH] at hH
-    refine ⟨_, by rw [NKind.ev, C12_batch_exact r init l ext? hv], ?_, ?_⟩
-    · simp at hP; simp [hP, seen_kind]
-    · intro _; simp [parentSeen, hne, hQ]
+  | create => simp at hP; simp [NKind.ev, NKind.namesParent, hP, seen_isNone, msgOf]
+  | modify => simp at hP; simp [NKind.ev, NKind.namesParent, hP, seen_isNone, msgOf]
+  | rename => simp at hP; simp [NKind.ev, NKind.namesParent, hP, seen_isNone, msgOf]
+  | delete =>
+    cases ext? with
+    | none => simp [NKind.ev, NKind.namesParent, msgOf, seen, mkEnt, extOf]
+    | some x => simp [NKind.ev, NKind.namesParent, msgOf, seen, mkEnt, extOf]
 
-example : tableH .create ([['d']].length + 1) = true := by decide
+/-- The statement's corollary in the form "the entry and its parent are named". -/
+theorem C12_table_names (nk : NKind) (r : Path) (init l ext?) (isDir : Path → Bool) (w : Bool)
+    (hv : ValidNonRoot init l ext?)
+    (hP : isDir (entPath r init l ext?) = (if nk = .delete then false else ext?.isNone)) :
+    ∃ batch, (handleEvent ⟨[r], w⟩ true isDir (nk.ev ext?.isNone) [entPath r init l ext?]).2 = [batch] ∧
+      mkEnt init l ext? ∈ batch ∧ (nk.namesParent = true → Ent.dir (joinDot init) ∈ batch) := by
+  refine ⟨_, C12_table nk r init l ext? isDir w hv hP, by simp, ?_⟩
+  intro h; simp [h]
 
-/-- **Deletions, partial.** From depth 2 on the parent directory (and nothing else) is named. -/
-theorem C12_delete_parent_partial (r : Path) (init l ext?) (isDir : Path → Bool) (w : Bool)
-    (hne : init ≠ []) (hv : ValidNonRoot init l ext?) (hQ : isDir (r ++ init.map N) = true) :
-    (handleEvent ⟨[r], w⟩ true isDir .remove [entPath r init l ext?]).2 = [[Ent.dir (joinDot init)]] := by
-  rw [C12_batch_exact r init l ext? hv]
-  simp [parentSeen, hne, hQ]
+example : C12_table_stmt .delete := C12_table .delete
 
-/-- **Renames, partial.** The renamed entry itself (and nothing else) is named. -/
-theorem C12_rename_entry_partial (r : Path) (init l ext?) (isDir : Path → Bool) (w : Bool)
-    (hv : ValidNonRoot init l ext?) (hP : isDir (entPath r init l ext?) = ext?.isNone) :
-    (handleEvent ⟨[r], w⟩ true isDir .modifyName [entPath r init l ext?]).2 = [[mkEnt init l ext?]] := by
-  rw [C12_batch_exact r init l ext? hv]
-  simp [hP, seen_kind]
+/-- **The root directory itself**: a notification of any translated kind about the root path
+names the directory `""` and nothing else (it has no parent). -/
+theorem C12_root_events (r : Path) (isDir : Path → Bool) (w : Bool) (k : EvKind)
+    (hk : k ≠ .access ∧ k ≠ .other) :
+    (handleEvent ⟨[r], w⟩ true isDir k [r]).2 = [[Ent.dir []]] := by
+  rw [handleEvent_single]
+  cases k <;> simp_all [watchTable, batchOf_single, idOfPath_root, withParentOf, parentId, Ent.id]
 
-/-! ### Refutations of the full-strength table on the current code -/
-
-def wRoot : Path := [.rootDir, N ['r']]
-def wTxt : Option (List Char) := some ['t', 'x', 't']
-
-theorem wValidTop : ValidNonRoot [] ['f'] wTxt := ⟨by simp [ValidSeg], by simp [wTxt, ValidExt]⟩
-theorem wValidNested : ValidNonRoot [['d']] ['f'] wTxt := ⟨by simp [ValidSeg], by simp [wTxt, ValidExt]⟩
-
-/-- The file system of the witnesses: `/r` and `/r/d` are directories, nothing else is. -/
-def wFs (p : Path) : Bool := p = wRoot ∨ p = wRoot ++ [N ['d']]
-
-/-- **F-C12a** (root never notified): creating `/r/f.txt` names `f.txt` only — the root directory,
-whose listing changed, is not named. -/
-theorem F_C12a_create_witness : ¬ C12_table_stmt .create := by
-  intro h
-  obtain ⟨batch, hb, _, hpar⟩ := h wRoot [] ['f'] wTxt wFs true wValidTop (by simp [wFs]) (by
-    simp [wFs, entPath, wRoot, wTxt, nameOf, N, ofStr])
-  rw [NKind.ev, C12_batch_exact _ _ _ _ wValidTop] at hb
-  simp [parentSeen] at hb
-  subst hb
-  have := hpar rfl
-  simp [seen, joinDot] at this
-  split at this <;> simp at this
-
-/-- **F-C12b** (delete names the parent only): deleting `/r/d/f.txt` names `d` but not `d.f`. -/
-theorem F_C12b_delete_witness : ¬ C12_table_stmt .delete := by
-  intro h
-  obtain ⟨batch, hb, hent, _⟩ := h wRoot [['d']] ['f'] wTxt wFs true wValidNested (by simp [wFs, N]) (by
-    simp [wFs, entPath, wRoot, wTxt, nameOf, N, ofStr])
-  rw [NKind.ev, C12_delete_parent_partial _ _ _ _ _ _ (by simp) wValidNested (by simp [wFs, N])] at hb
-  simp at hb
-  subst hb
-  simp [mkEnt, wTxt] at hent
-
-/-- **F-C12c** (rename = `Modify(Name)` does not name the parent): renaming something to
-`/r/d/f.txt` names `d.f` but not `d`. -/
-theorem F_C12c_rename_witness : ¬ C12_table_stmt .rename := by
-  intro h
-  obtain ⟨batch, hb, _, hpar⟩ := h wRoot [['d']] ['f'] wTxt wFs true wValidNested (by simp [wFs, N]) (by
-    simp [wFs, entPath, wRoot, wTxt, nameOf, N, ofStr])
-  rw [NKind.ev, C12_rename_entry_partial _ _ _ _ _ _ wValidNested (by
-    simp [wFs, entPath, wRoot, wTxt, nameOf, N, ofStr])] at hb
-  simp at hb
-  subst hb
-  have := hpar rfl
-  simp [mkEnt, wTxt] at this
-
-/-! ## Two further candidate findings met while building the check (not in DESIGN §9) -/
+/-! ## Inexpressible names (F-C12d) -/
 
 /-- Full strength, path side of "exactly the entry whose `path_of` is that path": whatever
-`id_of_path` names for a detour-free path below the root is an entry whose `path_of` is that path. -/
+`id_of_path` names for a detour-free path below the root is an entry whose `path_of` is that path.
+(`std::path` never yields an empty `Normal` component nor one containing the separator.) -/
 def C12_expressible_stmt : Prop :=
-  ∀ (r : Path) (segs : List (List Char)) (n : OsName) (d : Bool) (e : Ent),
-    idOfPath r (r ++ segs.map N ++ [.normal n]) d = some e →
+  ∀ (r : Path) (segs : List (List Char)) (n : OsName) (hint : Option Bool) (d : Bool) (e : Ent),
+    (∀ s ∈ segs, s ≠ [] ∧ '/' ∉ s) → n ≠ [] → OsCh.ch '/' ∉ n →
+    idOfPath r (r ++ segs.map N ++ [.normal n]) hint d = some e →
     pathOf r e = some (r ++ segs.map N ++ [.normal n])
 
-/-- **F-C12d** (candidate): a *directory* called `a.b` is reported as the directory `a`
-(`file_stem` is applied to directories too); likewise a file `a.` is reported as `a`. -/
-theorem F_C12d_dotted_dir_witness : ¬ C12_expressible_stmt := by
-  intro h
-  have := h wRoot [] (ofStr ['a', '.', 'b']) true (.dir ['a']) (by decide)
-  revert this; decide
+theorem mem_ofStr (c : Char) (s : List Char) : OsCh.ch c ∈ ofStr s ↔ c ∈ s := by simp [ofStr]
 
-/-- … it does hold for the paths of valid entries (executable side condition: `ValidNonRoot`). -/
-theorem C12_expressible_partial (r : Path) (init l ext?) (e : Ent) (hv : ValidNonRoot init l ext?)
-    (h : idOfPath r (entPath r init l ext?) ext?.isNone = some e) :
-    e = mkEnt init l ext? ∧ pathOf r e = some (entPath r init l ext?) := by
-  rw [idOfPath_entry r init l ext? hv, seen_kind] at h
-  cases h
-  exact ⟨rfl, pathOf_mk r init l ext? hv⟩
+theorem pathOf_dir_segs (r : Path) (ws : List (List Char)) (hne : ws ≠ []) (h : ∀ w ∈ ws, w ≠ [] ∧ '.' ∉ w ∧ '/' ∉ w) :
+    pathOf r (.dir (joinDot ws)) = some (r ++ ws.map N) := by
+  have hsl := no_slash_joinDot_of ws (fun s hs => (h s hs).2.2)
+  simp only [pathOf, hsl, if_false]
+  rw [split_join _ hne (fun w hw => (h w hw).2.1), foldl_pushSeg _ _ (fun w hw => (h w hw).1)]
 
-/-- Full strength, event level of `C12_dot_components`: a detour `x/..` in the reported path does
-not change the events, provided the file system resolves the detour. -/
+/-- **C12_expressible** (F-C12d repaired). -/
+theorem C12_expressible : C12_expressible_stmt := by
+  intro r segs n hint d e hsegs hn hslash hid
+  rw [idOfPath_under] at hid
+  cases hrun : runComps [] (segs.map N) with
+  | none => simp [hrun] at hid
+  | some buf =>
+    have hdf := dotfree_of_runComps [] buf segs hrun
+    rw [runComps_segs _ _ hdf] at hid
+    simp only [Option.bind_some] at hid
+    have hpushall : ∀ s : List Char, s ≠ [] → '.' ∉ s → push (pushAll [] segs) s = some (joinDot (segs ++ [s])) := by
+      intro s hs hd
+      apply push_segs segs s ?_ hd
+      intro x hx
+      rcases List.mem_append.mp hx with h | h
+      · exact (hsegs x h).1
+      · rw [List.mem_singleton.mp h]; exact hs
+    have hws : ∀ s : List Char, s ≠ [] → '.' ∉ s → '/' ∉ s → ∀ w ∈ segs ++ [s], w ≠ [] ∧ '.' ∉ w ∧ '/' ∉ w := by
+      intro s hs hd hsl w hw
+      rcases List.mem_append.mp hw with h | h
+      · exact ⟨(hsegs w h).1, hdf w h, (hsegs w h).2⟩
+      · rw [List.mem_singleton.mp h]; exact ⟨hs, hd, hsl⟩
+    cases hk : hint.getD d with
+    | true =>
+      -- a directory: the whole name is the last segment
+      simp only [hk, if_true] at hid
+      cases hs : toStr? n with
+      | none => simp [hs] at hid
+      | some s =>
+        have hns := toStr?_eq_some n s hs
+        have hsne : s ≠ [] := fun e0 => hn (by rw [hns, e0]; rfl)
+        have hssl : '/' ∉ s := fun m => hslash (by rw [hns]; exact (mem_ofStr _ _).mpr m)
+        simp only [hs, Option.bind_some] at hid
+        cases hp : push (pushAll [] segs) s with
+        | none => simp [hp] at hid
+        | some id =>
+          have hsd : '.' ∉ s := by
+            intro m; simp [push, m] at hp
+          rw [hpushall s hsne hsd] at hid
+          simp at hid
+          subst hid
+          rw [pathOf_dir_segs r (segs ++ [s]) (by simp) (hws s hsne hsd hssl), hns]
+          simp [N]
+    | false =>
+      simp only [hk] at hid
+      cases hs : toStr? (splitName n).1 with
+      | none => simp [hs] at hid
+      | some s =>
+        simp only [hs, Option.bind_some] at hid
+        cases hp : push (pushAll [] segs) s with
+        | none => simp [hp] at hid
+        | some id =>
+          have hsd : '.' ∉ s := by
+            intro m; simp [push, m] at hp
+          cases hx : extOfName n with
+          | none => simp [hp, hx] at hid
+          | some x =>
+            have hid0 := hid
+            clear hid0
+            -- the name is `s` or `s.x`
+            have hname : s ≠ [] ∧ '/' ∉ s ∧ '/' ∉ x ∧ n = ofStr s ++ (if x = [] then [] else .ch '.' :: ofStr x) := by
+              unfold extOfName at hx
+              unfold splitName at hs hx
+              cases hsl : splitLast (OsCh.ch '.') n with
+              | none =>
+                simp only [hsl] at hs hx
+                have hns := toStr?_eq_some n s hs
+                cases hx
+                refine ⟨fun e0 => hn (by rw [hns, e0]; rfl), fun m => hslash (by rw [hns]; exact (mem_ofStr _ _).mpr m), by simp, by simpa using hns⟩
+              | some ba =>
+                obtain ⟨b, a⟩ := ba
+                obtain ⟨hcat, _⟩ := splitLast_eq_some _ _ _ _ hsl
+                simp only [hsl] at hs hx
+                by_cases hb : b = []
+                · simp only [hb, if_true] at hs hx
+                  have hns := toStr?_eq_some n s hs
+                  cases hx
+                  refine ⟨fun e0 => hn (by rw [hns, e0]; rfl), fun m => hslash (by rw [hns]; exact (mem_ofStr _ _).mpr m), by simp, by simpa using hns⟩
+                · simp only [hb, if_false] at hs hx
+                  have hbs := toStr?_eq_some b s hs
+                  by_cases ha : a = []
+                  · simp [ha] at hx
+                  · simp only [ha, if_false] at hx
+                    have hax := toStr?_eq_some a x hx
+                    have hxne : x ≠ [] := fun e0 => ha (by rw [hax, e0]; rfl)
+                    refine ⟨fun e0 => hb (by rw [hbs, e0]; rfl), ?_, ?_, ?_⟩
+                    · intro m; apply hslash; rw [hcat, hbs]; exact List.mem_append_left _ ((mem_ofStr _ _).mpr m)
+                    · intro m; apply hslash; rw [hcat, hax]
+                      exact List.mem_append_right _ (List.mem_cons_of_mem _ ((mem_ofStr _ _).mpr m))
+                    · rw [hcat, hbs, hax]; simp [hxne]
+            obtain ⟨hsne, hssl, hxsl, hn_eq⟩ := hname
+            rw [hpushall s hsne hsd, hx] at hid
+            simp at hid
+            subst hid
+            have hw := hws s hsne hsd hssl
+            have hsl := no_slash_joinDot_of (segs ++ [s]) (fun w hw' => (hw w hw').2.2)
+            simp only [pathOf, hsl, hxsl, or_self, if_false]
+            rw [split_join _ (by simp) (fun w hw' => (hw w hw').2.1), foldl_pushSeg _ _ (fun w hw' => (hw w hw').1)]
+            rw [hn_eq]
+            simp [N, setExtension, splitName_plain s hsd]
+
+/-- On the old watcher a directory `a.b` was reported as the directory `a`; now it is not
+reported at all (nor is a file `a.`). -/
+example : idOfPath [.rootDir, N ['r']] ([.rootDir, N ['r']] ++ [.normal (ofStr ['a', '.', 'b'])]) none true = none ∧
+    idOfPath [.rootDir, N ['r']] ([.rootDir, N ['r']] ++ [.normal (ofStr ['a', '.'])]) none false = none := by decide
+
+/-! ## Detours at the event level (F-C12e) -/
+
+/-- Full strength, event level of `C12_dot_components`: a detour `x/..` in the reported path —
+also directly before its last component — does not change the events, provided the file system
+resolves the detour. -/
 def C12_detour_events_stmt : Prop :=
   ∀ (r a : Path) (x : List Char) (n : OsName) (isDir : Path → Bool) (w : Bool) (k : EvKind),
     '.' ∉ x → x ≠ [] →
-    isDir (r ++ a ++ [N x, .parentDir]) = isDir (r ++ a) →
     isDir (r ++ a ++ [N x, .parentDir] ++ [.normal n]) = isDir (r ++ a ++ [.normal n]) →
     (handleEvent ⟨[r], w⟩ true isDir k [r ++ a ++ [N x, .parentDir] ++ [.normal n]]).2 =
       (handleEvent ⟨[r], w⟩ true isDir k [r ++ a ++ [.normal n]]).2
 
-/-- **F-C12e** (candidate): when the detour sits directly before the last component
-(`/r/d/z/../f`), the *parent* handed to `id_of_path` ends in `..`, has no file stem, and is not
-named: a creation there names `d.f` only, whereas `/r/d/f` names `d.f` and `d`. The single-path
-level (`C12_dot_components_updown`) is unaffected. -/
-theorem F_C12e_detour_parent_witness : ¬ C12_detour_events_stmt := by
-  intro h
-  have := h wRoot [N ['d']] ['z'] (ofStr ['f']) (fun _ => true) true .create (by decide) (by decide) rfl rfl
-  revert this; decide
+/-- **C12_detour_events** (F-C12e repaired: the parent directory is the one of the entry's id,
+not `Path::parent()` of the notified path). -/
+theorem C12_detour_events : C12_detour_events_stmt := by
+  intro r a x n isDir w k hx hne hd
+  rw [handleEvent_single, handleEvent_single]
+  cases watchTable k with
+  | ret => rfl
+  | act wp hint =>
+    simp only [batchOf_single, hd]
+    have := C12_dot_components_updown r a [] x (.normal n) hint (isDir (r ++ a ++ [.normal n])) hx hne
+    simp only [List.append_nil] at this
+    rw [show r ++ a ++ [N x, .parentDir] ++ [Comp.normal n] = r ++ (a ++ [N x, .parentDir]) ++ [Comp.normal n] by simp,
+      this, show r ++ a ++ [Comp.normal n] = r ++ a ++ [Comp.normal n] from rfl]
+
+example : (handleEvent ⟨[[.rootDir, N ['r']]], true⟩ true (fun _ => false) .create
+      [[.rootDir, N ['r'], N ['d'], N ['z'], .parentDir, .normal (ofStr ['f'])]]).2 =
+    [[.file ['d', '.', 'f'] [], .dir ['d']]] := by decide
 
 /-! ## The tables the theorems rest on, as regenerated from the source -/
 
-/-- The loop of `id_of_path` iterates over the *parent* of the path stripped of the root, and its
-component table is the one transcribed in `compStep`. -/
+/-- The loop of `id_of_path` iterates over the *parent* of the path stripped of the root, its
+component table is the one transcribed in `compStep`, and the statements around the loop have the
+repaired shape. -/
 theorem C12_loop_shape : idLoopOverStrippedParent = true ∧
     compTable .normal = .push ∧ compTable .parentDir = .pop ∧ compTable .curDir = .skip ∧
-    compTable .rootDir = .fail ∧ compTable .pfx = .fail := by decide
+    compTable .rootDir = .fail ∧ compTable .pfx = .fail ∧
+    idShape = ⟨true, true, .whole, .stem, true⟩ := by decide
 
 /-- Access and Other notifications are ignored; every other kind is translated. -/
 theorem C12_ignored_kinds (k : EvKind) : watchTable k = .ret ↔ (k = .access ∨ k = .other) := by
   cases k <;> simp [watchTable]
+
+/-- The kind table: which notifications name the parent directory too, and which tell the kind of
+the entry themselves. -/
+theorem C12_kind_table : watchTable .create = .act true none ∧ watchTable .modifyName = .act true none ∧
+    watchTable .modifyOther = .act false none ∧ watchTable .any = .act false none ∧
+    watchTable .removeFile = .act true (some false) ∧ watchTable .removeFolder = .act true (some true) ∧
+    watchTable .removeOther = .act true none := by decide
 
 end AmVerif.Props.C12
